@@ -45,6 +45,7 @@ def shards(tier):
     out += [("mini", s) for s in seq_shards(spaces.SIGMA_DOC_MINI, 3 if tier == "quick" else 5)]
     out += spaces.deviation_shards(len(spaces.BASE_DOCS), 1 if tier == "quick" else 2)
     out += [("layout", i) for i in range(len(LAYOUT_WS))]
+    out += [("longcomment", 0)]
     out += [("big", n, v) for n in (bigdocs.SIZES_QUICK if tier == "quick" else bigdocs.SIZES_THOROUGH) for v in (0, 1)]
     return out
 
@@ -328,6 +329,18 @@ def run_shard(shard, tier, acc):
             # the blocks parse_string returns (default stack) must tile the source as well
             check_text(text, acc, case={"big": [shard[1], shard[2]], "text": text}, route="parse_string")
             check_text(text, acc, case={"big": [shard[1], shard[2]], "text": text}, route="parse_string_reused_stack")
+    elif kind == "longcomment":
+        # free text of middling to large size (around every power of two up to 2**15) with leading blank lines, a short
+        # or long first line, and runs of trailing white space before the next block
+        for L in (1, 10, 100, 1000, 4000, 4095, 4096, 4097, 5000, 8191, 8192, 8193, 20000, 32768, 40000):
+            for lead in ("", "\n\n", " \n\t\n"):
+                for first in ("a", "first line of the comment " * 3):
+                    for trail in ("\n", "\n\n\n", "\n" * 12 + "  ", " " * 50 + "\n"):
+                        body = (first + "\n" + ("x" * 79 + "\n") * (L // 80) + "y" * (L % 80)).rstrip("\n")
+                        text = lead + body + trail + "@a{k, t = {v}}\n" + body[:40] + trail
+                        acc.count("long_comment_texts")
+                        check_text(text, acc, case={"longcomment": [L, lead, len(first), trail], "text": text})
+                        check_text(text, acc, case={"longcomment": [L, lead, len(first), trail], "text": text}, route="parse_string")
     elif kind == "layout":
         for text in layout_iter(shard[1]):
             check_text(text, acc)
